@@ -90,6 +90,20 @@ def handle (line : String) : String :=
       | none => badCase "impl cands"
       | some got => if checkGather name (visit t) got then answer model else specFail model "gather"
     | _, _ => badCase "gathert fields"
+  -- verify <cs 0|1> <patternHex> <contentHex> <off>: candidateMatch.matchContent (ASCII texts)
+  | ["verify", cs, patHex, contentHex, off] =>
+    match bool? cs, hexToBytes? patHex, hexToBytes? contentHex, off.toNat? with
+    | some cs, some pat, some content, some off =>
+      let showRes : Option Nat → String := fun r => match r with | some n => s!"ok:{n}" | none => "no"
+      let model := showRes (matchContentASCII pat content off cs)
+      let res : Option (Option Nat) :=
+        if impl == "no" then some none
+        else if impl.startsWith "ok:" then (impl.drop 3).toString.toNat?.map some
+        else none
+      match res with
+      | none => if impl == "panic" then specFail model "verify-panic" else badCase "impl verify"
+      | some r => if checkVerify pat content off cs r then answer model else specFail model "verify"
+    | _, _, _, _ => badCase "verify fields"
   -- brk <textHex> <cands>
   | ["brk", textHex, cands] =>
     match hexToBytes? textHex, parseCands cands with
